@@ -77,6 +77,39 @@ Proof.
   apply Pres_bind; [apply Pres_gets|]. intros idf. apply Pres_derive.
 Qed.
 
+(* the proposed modification counter, modelled eagerly: no cache entry survives *)
+Lemma get_clear_all : forall st o, get (clear_all st) o = option_map (fun ob => with_cache ob []) (get st o).
+Proof. intros. unfold get, clear_all. simpl. apply nth_error_map. Qed.
+
+Lemma Inv_clear_all : forall st, Inv (clear_all st).
+Proof.
+  intros st. split.
+  - intros o ob k v G F L. rewrite get_clear_all in G. destruct (get st o); simpl in G; [|discriminate].
+    injection G as <-. simpl in L. discriminate.
+  - intros o ob G F. rewrite get_clear_all in G. destruct (get st o); simpl in G; [|discriminate].
+    injection G as <-. reflexivity.
+Qed.
+
+Lemma bump_ok : forall cfg st b c, Inv st -> Frm c -> quiet st (fst (bump cfg b c st)) ->
+  Inv (fst (bump cfg b c st)) /\ inflight (fst (bump cfg b c st)) = inflight st.
+Proof.
+  intros cfg st b c HI Hc Q. unfold bump in *. pose proof (Hc st) as F. destruct (c st) as [st1 [u|e]]; simpl in *.
+  - destruct (epochs cfg && b); simpl in *.
+    + split; [apply Inv_clear_all|]. destruct F as (Hi & _). exact Hi.
+    + split; [now apply (inv_frame st)|]. destruct F as (Hi & _). exact Hi.
+  - split; [now apply (inv_frame st)|]. destruct F as (Hi & _). exact Hi.
+Qed.
+
+(* ... so that with it NO guard on modifications is needed *)
+Lemma bump_ok_counted : forall cfg st c, epochs cfg = true -> Inv st -> Frm c ->
+  (forall e, snd (c st) = Exn e -> fst (c st) = st) ->
+  Inv (fst (bump cfg true c st)) /\ inflight (fst (bump cfg true c st)) = inflight st.
+Proof.
+  intros cfg st c He HI Hc Hx. unfold bump. pose proof (Hc st) as F. destruct (c st) as [st1 [u|e]] eqn:E; simpl in *.
+  - rewrite He. simpl. split; [apply Inv_clear_all|]. destruct F as (Hi & _). exact Hi.
+  - rewrite (Hx e eq_refl). auto.
+Qed.
+
 Lemma step_ok : forall cfg x st, Inv st -> guard cfg st x ->
   Inv (fst (step cfg x st)) /\ inflight (fst (step cfg x st)) = inflight st.
 Proof.
@@ -88,18 +121,21 @@ Proof.
     - destruct (Hc st) as (Hi & _). exact Hi. }
   assert (Hpr : forall c, Pres c -> Inv (fst (unit_ans c st)) /\ inflight (fst (unit_ans c st)) = inflight st).
   { intros c Hc. destruct (Pres_unit_ans c Hc st HI) as (I & T). split; auto. now apply inflight_of_thaw. }
+  assert (Hbp : forall b c, Frm c -> quiet st (fst (unit_ans (bump cfg b c) st)) ->
+                Inv (fst (unit_ans (bump cfg b c) st)) /\ inflight (fst (unit_ans (bump cfg b c) st)) = inflight st).
+  { intros b c Hc Q. rewrite fst_unit_ans in *. now apply bump_ok. }
   destruct x; cbn [step guard] in *.
-  - apply Hfr; auto. apply Frm_op_new.
+  - apply Hbp; auto. apply Frm_op_new.
   - destruct (Coh_run_query cfg o q st HI) as (I & S & _). split; auto.
     apply inflight_of_thaw. now apply skel_thaw.
   - apply Hpr. apply Pres_freeze.
   - apply Hpr. apply Pres_unfreeze.
-  - apply Hfr; auto. apply Frm_op_set.
-  - apply Hfr; auto. apply Frm_op_setitem.
+  - rewrite fst_unit_ans in *. apply bump_ok; auto. apply Frm_op_set.
+  - apply Hbp; auto. apply Frm_op_setitem.
   - apply Hpr. apply Pres_op_derive.
-  - apply Hfr; auto. apply Frm_op_append.
-  - apply Hfr; auto. apply Frm_op_del.
-  - apply Hfr; auto. apply Frm_op_copy.
+  - apply Hbp; auto. apply Frm_op_append.
+  - rewrite fst_unit_ans in *. apply bump_ok; auto. apply Frm_op_del.
+  - apply Hbp; auto. apply Frm_op_copy.
   - rewrite fst_unit_ans. unfold op_failwalk. rewrite G. simpl. auto.
 Qed.
 
@@ -179,8 +215,8 @@ Theorem freeze_keeps_composition : forall cfg st o, Inv st ->
   fresh (fst (step cfg (OFreeze o) st)) = fresh st /\ fresh (fst (step cfg (OUnfreeze o) st)) = fresh st.
 Proof.
   intros cfg st o HI. split; apply fresh_of_thaw; cbn [step].
-  - apply (Pres_unit_ans _ (Pres_freeze FUEL o) st HI).
-  - apply (Pres_unit_ans _ (Pres_unfreeze FUEL o) st HI).
+  - apply (Pres_unit_ans _ (Pres_freeze cfg FUEL o) st HI).
+  - apply (Pres_unit_ans _ (Pres_unfreeze cfg FUEL o) st HI).
 Qed.
 
 (* other objects do not matter: the cached functions of o read only what is reachable from o *)
@@ -188,12 +224,31 @@ Theorem other_objects_irrelevant : forall st st' o k, inflight st' = inflight st
   pure_key st' o k = pure_key st o k.
 Proof. exact pure_key_local. Qed.
 
+(* ------------------------------------------------------------------ lifting an operation through step *)
+Definition maybe_clear (cfg : config) (b : bool) (s : state) : state := if epochs cfg && b then clear_all s else s.
+
+Lemma comp_at_clear_all : forall s t, comp_at (clear_all s) t = comp_at s t.
+Proof. intros. unfold comp_at. rewrite get_clear_all. destruct (get s t); reflexivity. Qed.
+Lemma comp_at_maybe_clear : forall cfg b s t, comp_at (maybe_clear cfg b s) t = comp_at s t.
+Proof. intros. unfold maybe_clear. destruct (epochs cfg && b); auto. apply comp_at_clear_all. Qed.
+Lemma ptab_maybe_clear : forall cfg b s, ptab (maybe_clear cfg b s) = ptab s.
+Proof. intros. unfold maybe_clear. destruct (epochs cfg && b); reflexivity. Qed.
+Lemma inflight_maybe_clear : forall cfg b s, inflight (maybe_clear cfg b s) = inflight s.
+Proof. intros. unfold maybe_clear. destruct (epochs cfg && b); reflexivity. Qed.
+
+Lemma lift_ok : forall cfg (f : state -> bool) c st s1, c st = (s1, Ok tt) ->
+  unit_ans (fun s => bump cfg (f s) c s) st = (maybe_clear cfg (f st) s1, Ok AUnit).
+Proof. intros cfg f c st s1 E. unfold unit_ans, bind, bump, maybe_clear, ret. rewrite E. reflexivity. Qed.
+Lemma lift_exn : forall cfg (f : state -> bool) c st s1 e, c st = (s1, Exn e) ->
+  unit_ans (fun s => bump cfg (f s) c s) st = (s1, Exn e).
+Proof. intros cfg f c st s1 e E. unfold unit_ans, bind, bump. rewrite E. reflexivity. Qed.
+
 (* ------------------------------------------------------------------ frozen objects reject assignment *)
 Theorem frozen_rejects_setattr : forall cfg st o ob name v,
   get st o = Some ob -> okind ob <> KTuple -> ofrozen ob = true ->
   step cfg (OSet o name v) st = (st, Exn EAssertion).
 Proof.
-  intros cfg st o ob name v G K F. cbn [step]. unfold unit_ans, op_set, bind, gets. rewrite G.
+  intros cfg st o ob name v G K F. cbn [step]. apply lift_exn. unfold op_set, bind, gets. rewrite G.
   destruct (okind ob); try congruence; rewrite F; reflexivity.
 Qed.
 
@@ -201,7 +256,7 @@ Theorem frozen_rejects_append : forall cfg st o ob v,
   get st o = Some ob -> okind ob = KColl -> ofrozen ob = true ->
   step cfg (OAppend o v) st = (st, Exn EAssertion).
 Proof.
-  intros cfg st o ob v G K F. cbn [step]. unfold unit_ans, op_append, bind, gets. rewrite G, K, F. reflexivity.
+  intros cfg st o ob v G K F. cbn [step]. apply (lift_exn cfg (fun _ => true)). unfold op_append, bind, gets. rewrite G, K, F. reflexivity.
 Qed.
 
 (* an accepted assignment is the dict assignment on that object and nothing else *)
@@ -210,12 +265,15 @@ Theorem setattr_effect : forall cfg st o ob name v,
   let st' := fst (step cfg (OSet o name v) st) in
   comp_at st' o = Some (KColl, set_attr name v (oattrs ob), onitems ob) /\
   (forall t, t <> o -> comp_at st' t = comp_at st t) /\
+  ptab st' = ptab st /\ inflight st' = inflight st /\
   snd (step cfg (OSet o name v) st) = Ok AUnit.
 Proof.
-  intros cfg st o ob name v G K F. cbn [step]. unfold unit_ans, op_set, bind, gets, modify, ret. rewrite G, K, F.
-  rewrite G. simpl. split; [|split; auto].
-  - unfold comp_at. rewrite (get_put_eq _ _ _ _ G). simpl. now rewrite K.
-  - intros t Ht. unfold comp_at. rewrite get_put_neq by auto. reflexivity.
+  intros cfg st o ob name v G K F. cbn [step].
+  rewrite (lift_ok cfg _ _ st (put st o (with_attrs ob (set_attr name v (oattrs ob))))).
+  2:{ unfold op_set, bind, gets, modify. rewrite G, K, F. rewrite G. reflexivity. }
+  simpl. rewrite ptab_maybe_clear, inflight_maybe_clear. split; [|split; [|split; [|split]]]; auto.
+  - rewrite comp_at_maybe_clear. unfold comp_at. rewrite (get_put_eq _ _ _ _ G). simpl. now rewrite K.
+  - intros t Ht. rewrite comp_at_maybe_clear. unfold comp_at. rewrite get_put_neq by auto. reflexivity.
 Qed.
 
 (* ------------------------------------------------------------------ executable guard *)
@@ -368,17 +426,26 @@ Fixpoint pure_outcomes (cfg : config) (ops : list op) (st : state) : bool :=
 Definition check_guard (c : case) : bool :=
   match c with
   | Case cl pr ops outs fz =>
-      let cfg := mkConfig cl pr wrapper_cleanup derive_thaws setitem_transfers in
-      guardedb cfg ops (init cfg) && pure_outcomes cfg ops (init cfg)
+      let cfg := mkConfig cl pr wrapper_cleanup derive_thaws setitem_transfers delattr_guarded tuples_frozen
+                          cache_counts_modifications in
+      (* with every proposed repair switched on no guard is needed (Proofs4.coherent_when_repaired) *)
+      ((cleanup cfg && gdel cfg && gtuple cfg && epochs cfg) || guardedb cfg ops (init cfg)) && pure_outcomes cfg ops (init cfg)
   end.
 
-(* deepcopy leaves every existing object exactly as it was *)
+(* deepcopy leaves every existing object as it was: composition, id, frozen flag (and, unless the
+   proposed modification counter drops all caches, its cache) *)
 Theorem copy_keeps_originals : forall cfg st o t ob, get st t = Some ob ->
-  get (fst (step cfg (OCopy o) st)) t = Some ob.
+  exists ob', get (fst (step cfg (OCopy o) st)) t = Some ob' /\
+              okind ob' = okind ob /\ oattrs ob' = oattrs ob /\ onitems ob' = onitems ob /\ oidn ob' = oidn ob /\
+              ofrozen ob' = ofrozen ob /\ (epochs cfg = false -> ob' = ob).
 Proof.
-  intros cfg st o t ob G. cbn [step]. rewrite fst_unit_ans. unfold op_copy.
+  intros cfg st o t ob G. cbn [step]. rewrite fst_unit_ans. unfold bump, op_copy.
   pose proof (copy_val_appends FUEL (VRef o) (mkC (heap st) [] (ptab st) [])) as (ext & E & F).
-  destruct (copy_val FUEL (VRef o) (mkC (heap st) [] (ptab st) [])) as [cs v]. simpl in *. rewrite E. now apply get_app_old.
+  destruct (copy_val FUEL (VRef o) (mkC (heap st) [] (ptab st) [])) as [cs v]. simpl in *.
+  assert (G1 : get (mkState (cheap cs) (inflight st) (cptab cs)) t = Some ob) by (rewrite E; now apply get_app_old).
+  destruct (epochs cfg); simpl.
+  - exists (with_cache ob []). rewrite get_clear_all, G1. simpl. repeat split; auto. discriminate.
+  - exists ob. repeat split; auto.
 Qed.
 
 (* the full statement of the property for a configuration: EVERY history *)
@@ -388,5 +455,5 @@ Definition coherent_everywhere (cfg : config) : Prop :=
     snd (run cfg pre (init cfg)) ++ [snd (run_query cfg o q (fresh (fst (run cfg pre (init cfg)))))].
 
 (* with the repaired wrapper a failing call is harmless *)
-Theorem repaired_allows_failing_calls : forall cl pr d i st o, guard (mkConfig cl pr true d i) st (OFailWalk o).
+Theorem repaired_allows_failing_calls : forall cl pr d i gd gt ep st o, guard (mkConfig cl pr true d i gd gt ep) st (OFailWalk o).
 Proof. intros. reflexivity. Qed.
